@@ -71,6 +71,15 @@ def _check_case(case, stats, keep):
     drv = drive.Driver(version, case.get("flavour", "sync"))
     for nid in nodes:
         drv.line(f"{nid};255;0;0;17;2.0")
+    if case.get("sleepy"):
+        # the nodes take part in smart sleep: firmware responses are the one kind of traffic that is not withheld
+        from vf.ref import tables as T
+
+        wake = T.wake_sub(version)
+        for nid in nodes:
+            drv.line(f"{nid};1;0;0;6;t")
+            if wake is not None:
+                drv.line(f"{nid};255;3;0;{wake};7")
     where = f"[len={case['len']} fill={case['fill']} fw={fw} nodes={nodes} order={case['order']} v{version}]"
 
     def fail(clause, detail):
@@ -272,6 +281,8 @@ def make_case(length, rnd, full=None, via_hex=False):
         case["second"] = rnd.choice([16, 100, 128, 300])
     if rnd.random() < 0.3:
         case["reissue"] = rnd.choice([1, 1, 2, 3])
+    if rnd.random() < 0.25:
+        case["sleepy"] = True
     if rnd.random() < 0.3:
         case["reupload"] = rnd.choice([16, 100, 129, 400, max(1, min(length, 2000) - 17), min(length, 2000) + 40])
         case["reupload_kind"] = rnd.choice(["random", "random", "prefix", "prefix", "strip_ff", "extend", "one_byte", "same"])
